@@ -1,1 +1,783 @@
-/-! # C01 — property theorems (not built yet) -/
+import RsMatterVerif.Lemmas.Case
+import RsMatterVerif.Props.C19
+/-!
+# C01 — CASE admits only holders of a valid NOC of the addressed fabric
+-/
+namespace C01
+open Cert Case
+
+theorem responder_session_implies_auth (t : Time) (ctx : RespCtx) (m : Msg) (s : Session) (r : ResRec)
+    (h : respSigma3 t ctx m = some (s, r)) :
+    ∃ noc icac sig,
+      -- Sigma3 is a ciphertext under this handshake's S3K carrying a chain and a signature
+      m = .sigma3 (.enc (s3k ctx.secret ctx.fabric.ipk ctx.s1 ctx.s2) nonceS3 (tbe3 noc icac sig)) ∧
+      -- the chain is valid (C19) up to the root of the fabric the destination id selected,
+      -- and carries that fabric's id
+      CaseValid t ctx.fabric.view noc icac ∧
+      -- proof of possession of the NOC key over this handshake's ephemeral keys
+      sig = Term.sign noc.pubKey (tbs noc icac ctx.peerEph (.epk ctx.eph)) ∧
+      -- the session is bound to exactly that fabric, node id and CATs
+      s.fabIdx = ctx.fabric.idx ∧ nodeIdOf noc.subject = some s.peerNode ∧
+      s.cats = catsOf noc.subject ∧ s.localNode = ctx.fabric.nodeId ∧
+      -- keys from the transcript of this handshake
+      s.i2r = .part 0 (sessionKeys ctx.secret ctx.fabric.ipk ctx.s1 ctx.s2 m) ∧
+      s.r2i = .part 1 (sessionKeys ctx.secret ctx.fabric.ipk ctx.s1 ctx.s2 m) ∧
+      s.sharedSecret = ctx.secret ∧
+      -- the resumption record takes the same identity and this handshake's secret
+      r = { fabIdx := s.fabIdx, peerNode := s.peerNode, cats := s.cats, rid := ctx.rid, secret := ctx.secret } := by
+  unfold respSigma3 at h
+  split at h
+  · rename_i k n p
+    split at h
+    · cases h
+    · rename_i hk
+      simp only [ne_eq, not_or, Decidable.not_not] at hk
+      split at h
+      · cases h
+      · rename_i noc icac sig hp
+        have hp' := parseTbe_some hp
+        split at h
+        · cases h
+        · rename_i hv
+          split at h
+          · cases h
+          · rename_i hsig
+            simp only [ne_eq, Decidable.not_not] at hsig
+            split at h
+            · cases h
+            · split at h
+              · cases h
+              · rename_i peer hpeer
+                simp only [Option.some.injEq, Prod.mk.injEq] at h
+                obtain ⟨hs, hr⟩ := h
+                refine ⟨noc, icac, sig, ?_, (C19.validateCase_iff _ _ _ _).1 hv, hsig, ?_⟩
+                · rw [hk.1, hk.2, hp']; rfl
+                · subst hs; subst hr
+                  exact ⟨rfl, hpeer, rfl, rfl, rfl, rfl, rfl, rfl⟩
+  · cases h
+
+
+/-- the fabric of the handshake is the one the destination id of Sigma1 selects: the first fabric
+of the table whose HMAC over (initiator random, root key, fabric id, own node id) equals it -/
+theorem respSigma1_selects_fabric (fabrics : List Fabric) (m : Msg) (eph : Nat) (rnd rid sid : Term)
+    (ctx : RespCtx) (h : respSigma1 fabrics m eph rnd rid sid = .sent ctx) :
+    ∃ iRnd iSid dest iEph resume,
+      m = .sigma1 iRnd iSid dest iEph resume ∧ findFabric fabrics iRnd dest = some ctx.fabric ∧
+      ctx.fabric ∈ fabrics ∧
+      destId ctx.fabric.ipk iRnd ctx.fabric.root.pubKey ctx.fabric.fabricId ctx.fabric.nodeId = dest ∧
+      ctx.s1 = m ∧ ctx.peerEph = iEph ∧ ctx.eph = eph ∧ ctx.secret = ecdh eph iEph ∧ ctx.peerSid = iSid ∧
+      ctx.rid = rid ∧ ctx.sid = sid := by
+  unfold respSigma1 at h
+  split at h
+  · rename_i iRnd iSid dest iEph resume
+    split at h
+    · cases h
+    · rename_i f hf
+      simp only [RespOut1.sent.injEq] at h
+      subst h
+      refine ⟨iRnd, iSid, dest, iEph, resume, rfl, hf, ?_, ?_, rfl, rfl, rfl, rfl, rfl, rfl, rfl⟩
+      · exact List.mem_of_find?_eq_some hf
+      · have := List.find?_some hf
+        simpa using this
+  · cases h
+
+/-- **Responder, resumption**: a session completed on the resumption path takes the identity of
+a cached record whose secret produced the `Resume1MIC` of the received Sigma1 (for the random
+and resumption id that Sigma1 carries), and only after a success status report. -/
+theorem responder_resume_implies_mic (fabrics : List Fabric) (cache : List ResRec) (m1 m2 : Msg)
+    (newRid sid : Term) (ctx : RespResumeCtx) (s : Session) (r' : ResRec)
+    (h1 : respResume fabrics cache m1 newRid sid = some ctx)
+    (h2 : respResumeFinish ctx m2 = some (s, r')) :
+    ∃ rec ∈ cache, ∃ iRnd iSid dest iEph,
+      m1 = .sigma1 iRnd iSid dest iEph
+        (some (rec.rid, Term.mic (resumeKey rec.secret iRnd rec.rid infoS1RK) nonceR1)) ∧
+      m2 = .status true ∧
+      s.fabIdx = rec.fabIdx ∧ s.peerNode = rec.peerNode ∧ s.cats = rec.cats ∧
+      s.i2r = .part 0 (resumeSessionKeys rec.secret iRnd rec.rid) ∧
+      s.r2i = .part 1 (resumeSessionKeys rec.secret iRnd rec.rid) ∧
+      r' = { rec with rid := newRid } := by
+  unfold respResume at h1
+  split at h1
+  · rename_i iRnd iSid dest iEph rid mic1
+    split at h1
+    · cases h1
+    · rename_i rec hrec
+      split at h1
+      · cases h1
+      · rename_i hmic
+        simp only [ne_eq, Decidable.not_not] at hmic
+        split at h1
+        · cases h1
+        · rename_i f hf
+          simp only [Option.some.injEq] at h1
+          subst h1
+          unfold respResumeFinish at h2
+          split at h2
+          · simp only [Option.some.injEq, Prod.mk.injEq] at h2
+            obtain ⟨hs, hr⟩ := h2
+            have hrid : rec.rid = rid := by
+              have := List.find?_some hrec; simpa using this
+            refine ⟨rec, List.mem_of_find?_eq_some hrec, iRnd, iSid, dest, iEph, ?_, rfl, ?_⟩
+            · rw [hrid, hmic, hrid]
+            · subst hs; subst hr
+              exact ⟨rfl, rfl, rfl, rfl, rfl, rfl⟩
+          · cases h2
+  · cases h1
+
+/-- **Initiator**: Sigma3 is only sent (and the handshake only continues) if Sigma2 is a
+ciphertext under this handshake's S2K carrying a chain valid for the initiator's fabric, for the
+node id the initiator addressed, with a signature by the NOC key over this handshake's
+ephemeral keys. -/
+theorem initiator_sigma2_implies_auth (t : Time) (c : InitCtx) (m : Msg) (c3 : InitCtx3)
+    (h : initSigma2 t c m = some c3) :
+    ∃ rRnd rSid rEph noc icac sig rid,
+      m = .sigma2 rRnd rSid rEph
+        (.enc (s2k (ecdh c.eph rEph) c.fabric.ipk rRnd rEph c.s1) nonceS2 (tbe2 noc icac sig rid)) ∧
+      CaseValid t c.fabric.view noc icac ∧
+      nodeIdOf noc.subject = some c.peerNode ∧
+      sig = Term.sign noc.pubKey (tbs noc icac rEph (.epk c.eph)) ∧
+      c3.ctx = c ∧ c3.s2 = m ∧ c3.cats = catsOf noc.subject ∧ c3.secret = ecdh c.eph rEph ∧
+      c3.peerSid = rSid ∧ c3.peerRid = rid ∧
+      c3.s3 = .sigma3 (.enc (s3k (ecdh c.eph rEph) c.fabric.ipk c.s1 m) nonceS3
+        (tbe3 c.fabric.noc c.fabric.icac
+          (Term.sign c.fabric.opKey (tbs c.fabric.noc c.fabric.icac (.epk c.eph) rEph)))) := by
+  unfold initSigma2 at h
+  split at h
+  · rename_i rRnd rSid rEph k n p
+    simp only at h
+    split at h
+    · cases h
+    · rename_i hk
+      simp only [ne_eq, not_or, Decidable.not_not] at hk
+      split at h
+      · rename_i noc icac sig rid hp
+        have hp' := parseTbe_some hp
+        split at h
+        · cases h
+        · rename_i hv
+          split at h
+          · cases h
+          · rename_i hnode
+            simp only [ne_eq, Decidable.not_not] at hnode
+            split at h
+            · cases h
+            · rename_i hsig
+              simp only [ne_eq, Decidable.not_not] at hsig
+              split at h
+              · cases h
+              · simp only [Option.some.injEq] at h
+                subst h
+                refine ⟨rRnd, rSid, rEph, noc, icac, sig, rid, ?_, (C19.validateCase_iff _ _ _ _).1 hv,
+                  hnode, hsig, rfl, rfl, rfl, rfl, rfl, rfl, rfl⟩
+                rw [hk.1, hk.2, hp']; rfl
+      · cases h
+  · cases h
+
+/-- the initiator's session is bound to its own fabric, the addressed node id and the CATs of
+the validated NOC, with keys from its transcript; it needs a success status report -/
+theorem initiator_session_implies_auth (t : Time) (c : InitCtx) (m2 m4 : Msg) (c3 : InitCtx3)
+    (s : Session) (r : ResRec) (h2 : initSigma2 t c m2 = some c3) (h4 : initFinish c3 m4 = some (s, r)) :
+    m4 = .status true ∧ s.fabIdx = c.fabric.idx ∧ s.peerNode = c.peerNode ∧
+    s.localNode = c.fabric.nodeId ∧
+    (∃ noc icac, CaseValid t c.fabric.view noc icac ∧ nodeIdOf noc.subject = some s.peerNode ∧
+      s.cats = catsOf noc.subject) ∧
+    s.i2r = .part 0 (sessionKeys c3.secret c.fabric.ipk c.s1 m2 c3.s3) ∧
+    s.r2i = .part 1 (sessionKeys c3.secret c.fabric.ipk c.s1 m2 c3.s3) := by
+  obtain ⟨rRnd, rSid, rEph, noc, icac, sig, rid, hm, hv, hn, hsig, hc, hs2, hcats, hsec, _, _, hs3⟩ :=
+    initiator_sigma2_implies_auth t c m2 c3 h2
+  unfold initFinish at h4
+  split at h4
+  · simp only [Option.some.injEq, Prod.mk.injEq] at h4
+    obtain ⟨hs, _⟩ := h4
+    subst hs
+    rw [hc, hs2]
+    exact ⟨rfl, rfl, rfl, rfl, ⟨noc, icac, hv, hn, hcats⟩, rfl, rfl⟩
+  · cases h4
+
+/-- initiator, resumption: only a `Resume2MIC` under the cached secret (for this handshake's
+random and the new resumption id) completes the session, with the cached identity -/
+theorem initiator_resume_implies_mic (c : InitCtx) (m : Msg) (s : Session) (r' : ResRec)
+    (h : initSigma2Resume c m = some (s, r')) :
+    ∃ rec newRid rSid, c.cached = some rec ∧
+      m = .sigma2Resume newRid (Term.mic (resumeKey rec.secret c.rnd newRid infoS2RK) nonceR2) rSid ∧
+      s.fabIdx = rec.fabIdx ∧ s.peerNode = rec.peerNode ∧ s.cats = rec.cats ∧
+      s.i2r = .part 0 (resumeSessionKeys rec.secret c.rnd rec.rid) ∧
+      s.r2i = .part 1 (resumeSessionKeys rec.secret c.rnd rec.rid) ∧
+      r' = { rec with rid := newRid } := by
+  unfold initSigma2Resume at h
+  split at h
+  · rename_i newRid mic2 rSid rec hc
+    split at h
+    · cases h
+    · rename_i hmic
+      simp only [ne_eq, Decidable.not_not] at hmic
+      simp only [Option.some.injEq, Prod.mk.injEq] at h
+      obtain ⟨hs, hr⟩ := h
+      subst hs; subst hr
+      exact ⟨rec, newRid, rSid, hc, by rw [hmic], rfl, rfl, rfl, rfl, rfl, rfl⟩
+  · cases h
+
+
+/-! ## Agreement: whoever accepts the peer's own ciphertext has seen the peer's transcript -/
+
+theorem ecdh_comm (a b : Nat) : ecdh a (.epk b) = ecdh b (.epk a) := by
+  unfold ecdh
+  by_cases h1 : a ≤ b <;> by_cases h2 : b ≤ a <;> simp [h1, h2]
+  · omega
+  · omega
+
+/-- the Sigma2 an honest responder emits -/
+theorem respSigma1_s2 (fabrics : List Fabric) (m : Msg) (eph : Nat) (rnd rid sid : Term)
+    (ctx : RespCtx) (h : respSigma1 fabrics m eph rnd rid sid = .sent ctx) :
+    ∃ iEph, ctx.peerEph = iEph ∧ ctx.secret = ecdh eph iEph ∧ ctx.s1 = m ∧
+    ctx.s2 = .sigma2 rnd sid (.epk eph)
+      (.enc (s2k ctx.secret ctx.fabric.ipk rnd (.epk eph) m) nonceS2
+        (tbe2 ctx.fabric.noc ctx.fabric.icac
+          (Term.sign ctx.fabric.opKey (tbs ctx.fabric.noc ctx.fabric.icac (.epk eph) iEph)) rid)) := by
+  unfold respSigma1 at h
+  split at h
+  · rename_i iRnd iSid dest iEph resume
+    split at h
+    · cases h
+    · simp only [RespOut1.sent.injEq] at h
+      subst h
+      exact ⟨iEph, rfl, rfl, rfl, rfl⟩
+  · cases h
+
+/-- **Initiator side of agreement**: if the initiator accepts the Sigma2 an honest responder
+produced, then that responder had received exactly the initiator's Sigma1 (any change of any
+Sigma1 field in flight is detected here), both computed the same ECDH secret, and the chain and
+signature the initiator validated are the responder's own. -/
+theorem initiator_accepts_honest_sigma2 (fabrics : List Fabric) (m1' : Msg) (eph : Nat)
+    (rnd rid sid : Term) (ctx : RespCtx) (t : Time) (c : InitCtx) (c3 : InitCtx3)
+    (hR : respSigma1 fabrics m1' eph rnd rid sid = .sent ctx)
+    (hI : initSigma2 t c ctx.s2 = some c3) :
+    m1' = c.s1 ∧ c3.secret = ctx.secret ∧ ctx.fabric.ipk = c.fabric.ipk ∧
+    nodeIdOf ctx.fabric.noc.subject = some c.peerNode := by
+  obtain ⟨iEph, _, hsec, hs1, hs2⟩ := respSigma1_s2 fabrics m1' eph rnd rid sid ctx hR
+  obtain ⟨rRnd, rSid, rEph, noc, icac, sig, rid', hm, _, hn, _, _, _, _, hsec3, _⟩ :=
+    initiator_sigma2_implies_auth t c ctx.s2 c3 hI
+  rw [hs2] at hm
+  simp only [Msg.sigma2.injEq, Term.enc.injEq, s2k, Term.kdf.injEq, Term.pair.injEq, tt1,
+    Term.hash.injEq, tbe2, Term.cert.injEq] at hm
+  obtain ⟨_, _, hEph, ⟨hk, ⟨hipk, _, _, htt⟩, _⟩, _, hnoc, _⟩ := hm
+  refine ⟨toTerm_inj htt, ?_, hipk, ?_⟩
+  · rw [hsec3, ← hk]
+  · rw [hnoc]; exact hn
+
+/-- **Responder side of agreement / keys_agree**: if the responder accepts the Sigma3 an honest
+initiator produced, then both hold the same Sigma1 and Sigma2 (any change of any Sigma1 / Sigma2
+field in flight is detected here at the latest), the same secret and IPK, hence the same
+directional keys; and the responder's session is bound to the initiator's own NOC. -/
+theorem keys_agree (t t' : Time) (ctx : RespCtx) (c : InitCtx) (m2 : Msg) (c3 : InitCtx3)
+    (sR sI : Session) (rR rI : ResRec)
+    (hI2 : initSigma2 t' c m2 = some c3)
+    (hR : respSigma3 t ctx c3.s3 = some (sR, rR))
+    (hI4 : initFinish c3 (.status true) = some (sI, rI)) :
+    ctx.s1 = c.s1 ∧ ctx.s2 = m2 ∧ sR.i2r = sI.i2r ∧ sR.r2i = sI.r2i ∧
+    sR.sharedSecret = sI.sharedSecret ∧
+    nodeIdOf c.fabric.noc.subject = some sR.peerNode ∧ sR.cats = catsOf c.fabric.noc.subject := by
+  obtain ⟨noc, icac, sig, hm, _, _, _, hnode, hcats, _, hi2r, hr2i, hR', hrec⟩ :=
+    responder_session_implies_auth t ctx c3.s3 sR rR hR
+  obtain ⟨rRnd, rSid, rEph, noc2, icac2, sig2, rid2, hm2, _, _, _, hc, hs2, _, hsec, _, _, hs3⟩ :=
+    initiator_sigma2_implies_auth t' c m2 c3 hI2
+  rw [hs3] at hm
+  simp only [Msg.sigma3.injEq, Term.enc.injEq, s3k, Term.kdf.injEq, Term.pair.injEq, tt2,
+    Term.hash.injEq, tbe3, Term.cert.injEq] at hm
+  obtain ⟨⟨hk, ⟨hipk, ht1, ht2⟩, _⟩, _, hnoc, _⟩ := hm
+  have h1 : c.s1 = ctx.s1 := toTerm_inj ht1
+  have h2 : m2 = ctx.s2 := toTerm_inj ht2
+  unfold initFinish at hI4
+  simp only [Option.some.injEq, Prod.mk.injEq] at hI4
+  obtain ⟨hsI, _⟩ := hI4
+  subst hsI
+  have hsec' : c3.secret = ctx.secret := by rw [hsec, hk]
+  refine ⟨h1.symm, h2.symm, ?_, ?_, ?_, ?_, ?_⟩
+  · rw [hi2r]; simp only [hc, hs2, hsec', hipk, h1, h2, hs3]
+  · rw [hr2i]; simp only [hc, hs2, hsec', hipk, h1, h2, hs3]
+  · rw [hR']; exact hsec'.symm
+  · rw [hnoc]; exact hnode
+  · rw [hnoc]; exact hcats
+
+
+/-! ## Tampering: single changes of the handshake messages -/
+
+/-- Sigma1 changed in flight (any field, or replaced / replayed as a whole): the initiator does
+not accept the Sigma2 the responder builds on it — no Sigma3 is sent, no session on either side. -/
+theorem tamper_sigma1_no_session (fabrics : List Fabric) (m1' : Msg) (eph : Nat)
+    (rnd rid sid : Term) (ctx : RespCtx) (t : Time) (c : InitCtx)
+    (hR : respSigma1 fabrics m1' eph rnd rid sid = .sent ctx) (hne : m1' ≠ c.s1) :
+    initSigma2 t c ctx.s2 = none := by
+  cases h : initSigma2 t c ctx.s2 with
+  | none => rfl
+  | some c3 => exact absurd (initiator_accepts_honest_sigma2 fabrics m1' eph rnd rid sid ctx t c c3 hR h).1 hne
+
+/-- Sigma1 or Sigma2 changed in flight, Sigma3 relayed: the responder rejects the initiator's
+Sigma3 (different transcript hash ⇒ different S3K). -/
+theorem tamper_sigma12_no_session (t t' : Time) (ctx : RespCtx) (c : InitCtx) (m2 : Msg) (c3 : InitCtx3)
+    (hI2 : initSigma2 t' c m2 = some c3) (hne : ctx.s1 ≠ c.s1 ∨ ctx.s2 ≠ m2) :
+    respSigma3 t ctx c3.s3 = none := by
+  cases h : respSigma3 t ctx c3.s3 with
+  | none => rfl
+  | some p =>
+    obtain ⟨sR, rR⟩ := p
+    have := keys_agree t t' ctx c m2 c3 sR _ rR _ hI2 h rfl
+    rcases hne with h1 | h1
+    · exact absurd this.1 h1
+    · exact absurd this.2.1 h1
+
+/-- anything that is not a ciphertext under this handshake's S3K (bit flips, truncation, replay of
+a Sigma3 of another handshake, another message type) gives the responder no session -/
+theorem tamper_sigma3_no_session (t : Time) (ctx : RespCtx) (m : Msg)
+    (h : ∀ p, m ≠ .sigma3 (.enc (s3k ctx.secret ctx.fabric.ipk ctx.s1 ctx.s2) nonceS3 p)) :
+    respSigma3 t ctx m = none := by
+  cases hr : respSigma3 t ctx m with
+  | none => rfl
+  | some q =>
+    obtain ⟨s, r⟩ := q
+    obtain ⟨noc, icac, sig, hm, _⟩ := responder_session_implies_auth t ctx m s r hr
+    exact absurd hm (h _)
+
+/-- likewise for the initiator and Sigma2 -/
+theorem tamper_sigma2_no_session (t : Time) (c : InitCtx) (m : Msg)
+    (h : ∀ rRnd rSid rEph p, m ≠ .sigma2 rRnd rSid rEph
+      (.enc (s2k (ecdh c.eph rEph) c.fabric.ipk rRnd rEph c.s1) nonceS2 p)) :
+    initSigma2 t c m = none := by
+  cases hr : initSigma2 t c m with
+  | none => rfl
+  | some c3 =>
+    obtain ⟨rRnd, rSid, rEph, noc, icac, sig, rid, hm, _⟩ := initiator_sigma2_implies_auth t c m c3 hr
+    exact absurd hm (h _ _ _ _)
+
+/-- the final status report: anything but success leaves the initiator without a session (the
+responder keeps the session of the untouched run) -/
+theorem tamper_status_no_session (c3 : InitCtx3) (m : Msg) (h : m ≠ .status true) :
+    initFinish c3 m = none := by
+  unfold initFinish
+  split
+  · exact absurd rfl h
+  · rfl
+
+/-- what `try_handle_sigma1_resume` has established when it answers with `Sigma2_Resume` -/
+theorem respResume_some (fabrics : List Fabric) (cache : List ResRec) (m : Msg) (newRid sid : Term)
+    (ctx : RespResumeCtx) (h : respResume fabrics cache m newRid sid = some ctx) :
+    ∃ rec ∈ cache, ∃ iRnd iSid dest iEph,
+      m = .sigma1 iRnd iSid dest iEph
+        (some (rec.rid, Term.mic (resumeKey rec.secret iRnd rec.rid infoS1RK) nonceR1)) ∧
+      ctx.record = rec ∧ ctx.newRid = newRid ∧
+      ctx.s2r = .sigma2Resume newRid (Term.mic (resumeKey rec.secret iRnd newRid infoS2RK) nonceR2) sid ∧
+      ctx.session.i2r = .part 0 (resumeSessionKeys rec.secret iRnd rec.rid) ∧
+      ctx.session.r2i = .part 1 (resumeSessionKeys rec.secret iRnd rec.rid) := by
+  unfold respResume at h
+  split at h
+  · rename_i iRnd iSid dest iEph rid mic1
+    split at h
+    · cases h
+    · rename_i rec hrec
+      split at h
+      · cases h
+      · rename_i hmic
+        simp only [ne_eq, Decidable.not_not] at hmic
+        split at h
+        · cases h
+        · simp only [Option.some.injEq] at h
+          subst h
+          have hrid : rec.rid = rid := by
+            have := List.find?_some hrec; simpa using this
+          refine ⟨rec, List.mem_of_find?_eq_some hrec, iRnd, iSid, dest, iEph, ?_, rfl, rfl, rfl, rfl, rfl⟩
+          rw [hrid, hmic, hrid]
+  · cases h
+
+/-- **resumption, keys_agree**: the responder resumes on the initiator's own Sigma1 and the
+initiator accepts the responder's own `Sigma2_Resume` ⇒ same directional keys and the same
+rotated resumption id on both sides -/
+theorem resume_keys_agree (f : Fabric) (cacheI cacheR : List ResRec) (peer eph : Nat) (rnd sidI : Term)
+    (fabrics : List Fabric) (newRid sid : Term) (ctxR : RespResumeCtx) (sR sI : Session) (rR rI : ResRec)
+    (h1 : respResume fabrics cacheR (initSigma1 f cacheI peer eph rnd sidI).s1 newRid sid = some ctxR)
+    (h2 : respResumeFinish ctxR (.status true) = some (sR, rR))
+    (h3 : initSigma2Resume (initSigma1 f cacheI peer eph rnd sidI) ctxR.s2r = some (sI, rI)) :
+    sR.i2r = sI.i2r ∧ sR.r2i = sI.r2i ∧ rR.rid = rI.rid := by
+  obtain ⟨recR, _, iRnd, iSid, dest, iEph, hm1, hrec, hnr, hs2r, hki, hkr⟩ :=
+    respResume_some fabrics cacheR _ newRid sid ctxR h1
+  obtain ⟨recI, newRid', rSid, hc, hm, _, _, _, hIi, hIr, hrI⟩ :=
+    initiator_resume_implies_mic _ ctxR.s2r sI rI h3
+  unfold respResumeFinish at h2
+  simp only [Option.some.injEq, Prod.mk.injEq] at h2
+  obtain ⟨hsR, hrR⟩ := h2
+  -- the initiator's Sigma1 carries its own record's id and MIC
+  have hcached : (initSigma1 f cacheI peer eph rnd sidI).cached = some recI := hc
+  simp only [initSigma1] at hm1 hcached hIi hIr
+  rw [hcached] at hm1
+  simp only [Option.map_some, Msg.sigma1.injEq, Option.some.injEq, Prod.mk.injEq, Term.mic.injEq,
+    resumeKey, Term.kdf.injEq, Term.pair.injEq] at hm1
+  obtain ⟨hrnd, _, _, _, hrid, ⟨hsec, _, _⟩, _⟩ := hm1
+  rw [hs2r] at hm
+  simp only [Msg.sigma2Resume.injEq] at hm
+  obtain ⟨hnew, _, _⟩ := hm
+  refine ⟨?_, ?_, ?_⟩
+  · rw [← hsR, hki, hIi, ← hsec, ← hrid, ← hrnd]
+  · rw [← hsR, hkr, hIr, ← hsec, ← hrid, ← hrnd]
+  · rw [← hrR, hrI, hnr, hnew]
+
+
+/-! ## The Dolev-Yao attacker
+
+`Derivable H S C K t`: what an on-path attacker can construct from the terms `K` it has seen, with
+all public operations, its own ephemeral secrets (any secret not in the honest set `H`),
+signatures under the long-term keys satisfying `S` and the certificates satisfying `C`
+(certificates are symbolic records, so "issued by a CA" has to come from outside).
+Decryption needs the key. -/
+
+inductive Derivable (H : List Nat) (S : Nat → Prop) (C : Cert → Prop) (K : List Term) : Term → Prop
+  | known {t} : t ∈ K → Derivable H S C K t
+  | atom (n) : Derivable H S C K (.atom n)
+  | none : Derivable H S C K .none
+  | cert {c} : C c → Derivable H S C K (.cert c)
+  | epk (n) : Derivable H S C K (.epk n)
+  | ownEcdh {z t} : z ∉ H → Derivable H S C K t → Derivable H S C K (ecdh z t)
+  | pair {a b} : Derivable H S C K a → Derivable H S C K b → Derivable H S C K (.pair a b)
+  | fst {a b} : Derivable H S C K (.pair a b) → Derivable H S C K a
+  | snd {a b} : Derivable H S C K (.pair a b) → Derivable H S C K b
+  | hash {a} : Derivable H S C K a → Derivable H S C K (.hash a)
+  | kdf {a b c} : Derivable H S C K a → Derivable H S C K b → Derivable H S C K c →
+      Derivable H S C K (.kdf a b c)
+  | mac {a b} : Derivable H S C K a → Derivable H S C K b → Derivable H S C K (.mac a b)
+  | sign {k m} : S k → Derivable H S C K m → Derivable H S C K (.sign k m)
+  | mic {a b} : Derivable H S C K a → Derivable H S C K b → Derivable H S C K (.mic a b)
+  | enc {k n p} : Derivable H S C K k → Derivable H S C K n → Derivable H S C K p →
+      Derivable H S C K (.enc k n p)
+  | dec {k n p} : Derivable H S C K (.enc k n p) → Derivable H S C K k → Derivable H S C K p
+  | part {i t} : Derivable H S C K t → Derivable H S C K (.part i t)
+
+/-- the secrets of a handshake with ephemeral secrets `a ≤ b`: the ECDH result and every key
+derived from it -/
+def isSec (a b : Nat) : Term → Bool
+  | .shared x y => x == a && y == b
+  | .kdf (.shared x y) _ _ => x == a && y == b
+  | _ => false
+
+/-- `P`: the secrets occur only as keys of `enc` / `mic` (never exposed) -/
+def P (a b : Nat) : Term → Prop
+  | .atom _ => True
+  | .epk _ => True
+  | .shared x y => ¬ (x = a ∧ y = b)
+  | .badShared _ t => P a b t
+  | .pair u v => P a b u ∧ P a b v
+  | .hash u => P a b u
+  | .kdf s x y => isSec a b (.kdf s x y) = false ∧ P a b s ∧ P a b x ∧ P a b y
+  | .mac k m => P a b k ∧ P a b m
+  | .sign _ m => P a b m
+  | .mic k n => isSec a b k = true ∨ (P a b k ∧ P a b n)
+  | .enc k n p => isSec a b k = true ∨ (P a b k ∧ P a b n ∧ P a b p)
+  | .cert _ => True
+  | .none => True
+  | .part _ t => P a b t
+
+theorem P_not_sec {a b : Nat} {k : Term} (h : P a b k) : isSec a b k = false := by
+  cases k <;> simp [isSec, P] at h ⊢
+  · rename_i x y; intro hx; exact fun hy => h hx hy
+  · rename_i s x y
+    exact h.1
+
+theorem P_ecdh (a b z : Nat) (t : Term) (hz : ¬ (z = a ∨ z = b)) (ht : P a b t) : P a b (ecdh z t) := by
+  unfold ecdh
+  split
+  · rename_i y
+    split <;> (simp only [P]; omega)
+  · exact ht
+
+theorem derivable_P (a b : Nat) (H : List Nat) (S : Nat → Prop) (C : Cert → Prop) (K : List Term)
+    (ha : a ∈ H) (hb : b ∈ H) (hK : ∀ t ∈ K, P a b t) :
+    ∀ t, Derivable H S C K t → P a b t := by
+  intro t h
+  induction h with
+  | known hm => exact hK _ hm
+  | atom n => trivial
+  | none => trivial
+  | cert _ => trivial
+  | epk n => trivial
+  | ownEcdh hz _ ih =>
+    apply P_ecdh _ _ _ _ _ ih
+    rintro (h | h)
+    · exact hz (h ▸ ha)
+    · exact hz (h ▸ hb)
+  | pair _ _ ih1 ih2 => exact ⟨ih1, ih2⟩
+  | fst _ ih => exact ih.1
+  | snd _ ih => exact ih.2
+  | hash _ ih => exact ih
+  | kdf _ _ _ ih1 ih2 ih3 =>
+    refine ⟨?_, ih1, ih2, ih3⟩
+    rename_i s x y _ _ _
+    cases s <;> simp [isSec]
+    rename_i u v
+    simp [P] at ih1
+    exact ih1
+  | mac _ _ ih1 ih2 => exact ⟨ih1, ih2⟩
+  | sign _ _ ih => exact ih
+  | mic _ _ ih1 ih2 => exact Or.inr ⟨ih1, ih2⟩
+  | enc _ _ _ ih1 ih2 ih3 => exact Or.inr ⟨ih1, ih2, ih3⟩
+  | dec _ _ ih1 ih2 =>
+    rcases ih1 with h1 | h1
+    · rw [P_not_sec ih2] at h1; cases h1
+    · exact h1.2.2
+  | part _ ih => exact ih
+
+/-- `Q`: every ciphertext / MIC under a secret key is one of the honest ones in `E` -/
+def Q (a b : Nat) (E : List Term) : Term → Prop
+  | .atom _ => True
+  | .epk _ => True
+  | .shared _ _ => True
+  | .badShared _ t => Q a b E t
+  | .pair u v => Q a b E u ∧ Q a b E v
+  | .hash u => Q a b E u
+  | .kdf s x y => Q a b E s ∧ Q a b E x ∧ Q a b E y
+  | .mac k m => Q a b E k ∧ Q a b E m
+  | .sign _ m => Q a b E m
+  | .mic k n => (isSec a b k = true → Term.mic k n ∈ E) ∧ Q a b E k ∧ Q a b E n
+  | .enc k n p => (isSec a b k = true → Term.enc k n p ∈ E) ∧ Q a b E k ∧ Q a b E n ∧ Q a b E p
+  | .cert _ => True
+  | .none => True
+  | .part _ t => Q a b E t
+
+theorem Q_ecdh (a b z : Nat) (E : List Term) (t : Term) (ht : Q a b E t) : Q a b E (ecdh z t) := by
+  unfold ecdh
+  split
+  · split <;> trivial
+  · exact ht
+
+theorem derivable_PQ (a b : Nat) (H : List Nat) (S : Nat → Prop) (C : Cert → Prop) (E K : List Term)
+    (ha : a ∈ H) (hb : b ∈ H) (hK : ∀ t ∈ K, P a b t ∧ Q a b E t) :
+    ∀ t, Derivable H S C K t → P a b t ∧ Q a b E t := by
+  intro t h
+  have hP : ∀ t, Derivable H S C K t → P a b t :=
+    derivable_P a b H S C K ha hb (fun t ht => (hK t ht).1)
+  refine ⟨hP t h, ?_⟩
+  induction h with
+  | known hm => exact (hK _ hm).2
+  | atom n => trivial
+  | none => trivial
+  | cert _ => trivial
+  | epk n => trivial
+  | ownEcdh _ _ ih => exact Q_ecdh _ _ _ _ _ ih
+  | pair _ _ ih1 ih2 => exact ⟨ih1, ih2⟩
+  | fst _ ih => exact ih.1
+  | snd _ ih => exact ih.2
+  | hash _ ih => exact ih
+  | kdf _ _ _ ih1 ih2 ih3 => exact ⟨ih1, ih2, ih3⟩
+  | mac _ _ ih1 ih2 => exact ⟨ih1, ih2⟩
+  | sign _ _ ih => exact ih
+  | mic hk _ ih1 ih2 =>
+    refine ⟨?_, ih1, ih2⟩
+    intro hs; rw [P_not_sec (hP _ hk)] at hs; cases hs
+  | enc hk _ _ ih1 ih2 ih3 =>
+    refine ⟨?_, ih1, ih2, ih3⟩
+    intro hs; rw [P_not_sec (hP _ hk)] at hs; cases hs
+  | dec _ _ ih1 _ => exact ih1.2.2.2
+  | part _ ih => exact ih
+
+theorem ecdh_epk (x y : Nat) : ecdh x (.epk y) = .shared (min x y) (max x y) := by
+  unfold ecdh
+  by_cases h : x ≤ y
+  · simp [h, Nat.min_eq_left h, Nat.max_eq_right h]
+  · have h' : y ≤ x := by omega
+    simp [h, Nat.min_eq_right h', Nat.max_eq_left h']
+
+theorem PQ_cert_opt (a b : Nat) (E : List Term) (o : Option Cert) :
+    P a b (optCert o) ∧ Q a b E (optCert o) := by
+  cases o <;> simp [optCert, P, Q]
+
+/-- **Sigma3 cannot be forged** (Dolev-Yao): an attacker who sees the whole handshake and knows
+the fabric's IPK (an insider), has its own ephemeral secrets, may even sign under any long-term key
+and fabricate any certificate record, but knows neither ephemeral secret of this handshake,
+cannot construct any Sigma3 the responder accepts other than the initiator's own.  With
+`keys_agree` this is the tamper clause for the responder: no session, or the session of the
+untouched run.  Public values (randoms, session ids, resumption id, IPK) are atoms. -/
+theorem sigma3_unforgeable (t t' : Time) (fabrics : List Fabric) (f : Fabric) (peer ephI ephR : Nat)
+    (rI sI ipk rR idR sR : Nat) (m1' : Msg) (ctx : RespCtx) (c3 : InitCtx3) (m : Msg)
+    (hipk : f.ipk = .atom ipk)
+    (hR : respSigma1 fabrics m1' ephR (.atom rR) (.atom idR) (.atom sR) = .sent ctx)
+    (hI : initSigma2 t' (initSigma1 f [] peer ephI (.atom rI) (.atom sI)) ctx.s2 = some c3)
+    (S : Nat → Prop) (C : Cert → Prop)
+    (hD : Derivable [ephI, ephR] S C [(initSigma1 f [] peer ephI (.atom rI) (.atom sI)).s1.toTerm,
+      m1'.toTerm, ctx.s2.toTerm, c3.s3.toTerm, f.ipk] m.toTerm)
+    (hA : (respSigma3 t ctx m).isSome = true) : m = c3.s3 := by
+  -- the responder saw the initiator's own Sigma1
+  obtain ⟨hm1, hsec3, hipk', _⟩ :=
+    initiator_accepts_honest_sigma2 fabrics m1' ephR (.atom rR) (.atom idR) (.atom sR) ctx t' _ c3 hR hI
+  obtain ⟨iEph, hpe, hsec, hs1, hs2⟩ := respSigma1_s2 fabrics m1' ephR _ _ _ ctx hR
+  obtain ⟨rRnd, rSid, rEph, noc, icac, sig, rid, hm2, _, _, _, hc, _, _, hsecI, _, _, hs3⟩ :=
+    initiator_sigma2_implies_auth t' _ ctx.s2 c3 hI
+  -- shapes
+  have hiEph : iEph = .epk ephI := by
+    rw [hm1] at hR
+    unfold respSigma1 initSigma1 at hR
+    simp only [List.find?_nil, Option.map_none] at hR
+    split at hR
+    · cases hR
+    · simp only [RespOut1.sent.injEq] at hR
+      rw [← hR] at hpe
+      exact hpe.symm
+  have hrEph : rEph = .epk ephR := by
+    rw [hs2] at hm2
+    simp only [Msg.sigma2.injEq] at hm2
+    exact hm2.2.2.1.symm
+  -- the accepted message
+  cases hres : respSigma3 t ctx m with
+  | none => rw [hres] at hA; cases hA
+  | some q =>
+    obtain ⟨sR', rR'⟩ := q
+    obtain ⟨noc3, icac3, sig3, hm, _⟩ := responder_session_implies_auth t ctx m sR' rR' hres
+    -- the shared secret
+    let a := min ephR ephI
+    let b := max ephR ephI
+    have hS : ctx.secret = .shared a b := by rw [hsec, hiEph, ecdh_epk]
+    have hSI : ecdh ephI rEph = .shared a b := by
+      rw [hrEph, ecdh_epk, Nat.min_comm, Nat.max_comm]
+    let E2 : Term := .enc (s2k ctx.secret ctx.fabric.ipk (.atom rR) (.epk ephR) m1') nonceS2
+      (tbe2 ctx.fabric.noc ctx.fabric.icac
+        (Term.sign ctx.fabric.opKey (tbs ctx.fabric.noc ctx.fabric.icac (.epk ephR) iEph)) (.atom idR))
+    let E3 : Term := .enc (s3k (ecdh ephI rEph) f.ipk (initSigma1 f [] peer ephI (.atom rI) (.atom sI)).s1 ctx.s2) nonceS3
+      (tbe3 f.noc f.icac (Term.sign f.opKey (tbs f.noc f.icac (.epk ephI) rEph)))
+    have hipkR : ctx.fabric.ipk = .atom ipk := by rw [hipk', ← hipk]; rfl
+    have hisS : ∀ x y, isSec a b (.kdf (.shared a b) x y) = true := by intro x y; simp [isSec]
+    -- the messages on the wire keep the secrets under wraps and contain no other ciphertext
+    have h1 : P a b (initSigma1 f [] peer ephI (.atom rI) (.atom sI)).s1.toTerm ∧
+        Q a b [E2, E3] (initSigma1 f [] peer ephI (.atom rI) (.atom sI)).s1.toTerm := by
+      simp [initSigma1, Msg.toTerm, resumeTerm, destId, hipk, P, Q]
+    have hcert : ∀ o : Option Cert, P a b (optCert o) ∧ Q a b [E2, E3] (optCert o) :=
+      PQ_cert_opt a b [E2, E3]
+    have hs3' : c3.s3 = .sigma3 E3 := hs3
+    have hm1Q : Q a b [E2, E3] m1'.toTerm := by rw [hm1]; exact h1.2
+    have hE2mem : E2 ∈ [E2, E3] := List.mem_cons_self
+    have hE3mem : E3 ∈ [E2, E3] := List.mem_cons_of_mem _ List.mem_cons_self
+    have hQE2 : Q a b [E2, E3] E2 := by
+      show (_ → E2 ∈ [E2, E3]) ∧ Q a b _ (s2k ctx.secret ctx.fabric.ipk (.atom rR) (.epk ephR) m1') ∧
+        Q a b _ nonceS2 ∧ Q a b _ (tbe2 ctx.fabric.noc ctx.fabric.icac _ (.atom idR))
+      refine ⟨fun _ => hE2mem, ?_, trivial, ?_⟩
+      · show Q a b _ ctx.secret ∧ Q a b _ (Term.pair ctx.fabric.ipk (.pair (.atom rR) (.pair (.epk ephR) (tt1 m1')))) ∧ Q a b _ infoS2K
+        rw [hS, hipkR]
+        exact ⟨trivial, ⟨trivial, trivial, trivial, hm1Q⟩, trivial⟩
+      · show Q a b _ (Term.cert _) ∧ Q a b _ (optCert ctx.fabric.icac) ∧ Q a b _ (Term.sign _ _) ∧ Q a b _ (Term.atom idR)
+        refine ⟨trivial, (hcert _).2, ?_, trivial⟩
+        show Q a b _ (Term.cert _) ∧ Q a b _ (optCert ctx.fabric.icac) ∧ Q a b _ (Term.epk ephR) ∧ Q a b _ iEph
+        rw [hiEph]
+        exact ⟨trivial, (hcert _).2, trivial, trivial⟩
+    have h2 : P a b ctx.s2.toTerm ∧ Q a b [E2, E3] ctx.s2.toTerm := by
+      rw [hs2]
+      have hk : isSec a b (s2k ctx.secret ctx.fabric.ipk (.atom rR) (.epk ephR) m1') = true := by
+        rw [hS]; exact hisS _ _
+      refine ⟨?_, ?_⟩
+      · show P a b (.atom 2) ∧ P a b (.atom rR) ∧ P a b (.atom sR) ∧ P a b (.epk ephR) ∧ P a b E2
+        exact ⟨trivial, trivial, trivial, trivial, Or.inl hk⟩
+      · show Q a b _ (.atom 2) ∧ Q a b _ (.atom rR) ∧ Q a b _ (.atom sR) ∧ Q a b _ (.epk ephR) ∧ Q a b _ E2
+        exact ⟨trivial, trivial, trivial, trivial, hQE2⟩
+    have hQE3 : Q a b [E2, E3] E3 := by
+      show (_ → E3 ∈ [E2, E3]) ∧ Q a b _ (s3k (ecdh ephI rEph) f.ipk _ ctx.s2) ∧
+        Q a b _ nonceS3 ∧ Q a b _ (tbe3 f.noc f.icac _)
+      refine ⟨fun _ => hE3mem, ?_, trivial, ?_⟩
+      · show Q a b _ (ecdh ephI rEph) ∧ Q a b _ (Term.pair f.ipk (tt2 _ ctx.s2)) ∧ Q a b _ infoS3K
+        rw [hSI, hipk]
+        exact ⟨trivial, ⟨trivial, h1.2, h2.2⟩, trivial⟩
+      · show Q a b _ (Term.cert _) ∧ Q a b _ (optCert f.icac) ∧ Q a b _ (Term.sign _ _)
+        refine ⟨trivial, (hcert _).2, ?_⟩
+        show Q a b _ (Term.cert _) ∧ Q a b _ (optCert f.icac) ∧ Q a b _ (Term.epk ephI) ∧ Q a b _ rEph
+        rw [hrEph]
+        exact ⟨trivial, (hcert _).2, trivial, trivial⟩
+    have h3 : P a b c3.s3.toTerm ∧ Q a b [E2, E3] c3.s3.toTerm := by
+      rw [hs3']
+      have hk : isSec a b (s3k (ecdh ephI rEph) f.ipk (initSigma1 f [] peer ephI (.atom rI) (.atom sI)).s1 ctx.s2) = true := by
+        rw [hSI]; exact hisS _ _
+      exact ⟨⟨trivial, Or.inl hk⟩, ⟨trivial, hQE3⟩⟩
+    have hab : a ∈ [ephI, ephR] ∧ b ∈ [ephI, ephR] := by
+      simp only [List.mem_cons, List.not_mem_nil, or_false, a, b]; omega
+    have hPQ := derivable_PQ a b [ephI, ephR] S C [E2, E3] _ hab.1 hab.2 (by
+      intro x hx
+      simp only [List.mem_cons, List.not_mem_nil, or_false] at hx
+      rcases hx with rfl | rfl | rfl | rfl | rfl
+      · exact h1
+      · rw [hm1]; exact h1
+      · exact h2
+      · exact h3
+      · rw [hipk]; simp [P, Q]) m.toTerm hD
+    -- the accepted ciphertext is under a secret key, hence one of the two honest ones
+    have hq := hPQ.2
+    rw [hm] at hq
+    simp only [Msg.toTerm, Q] at hq
+    have hk3 : isSec a b (s3k ctx.secret ctx.fabric.ipk ctx.s1 ctx.s2) = true := by
+      rw [hS]; exact hisS _ _
+    have hmem := hq.2.1 hk3
+    simp only [List.mem_cons, List.not_mem_nil, or_false] at hmem
+    rcases hmem with h | h
+    · -- a Sigma2 ciphertext is under another key (different KDF info)
+      simp [E2, s3k, s2k, infoS3K, infoS2K] at h
+    · rw [hm, h, hs3']
+
+
+/-- What remains unproved of the tamper clause — the symmetric statement for Sigma2: if the
+attacker cannot sign under the responder's operational key and every certificate it can present
+for the addressed node id certifies that key, then any Sigma2 the initiator accepts is the
+responder's own up to the (unauthenticated at this point, transcript-bound at Sigma3) session id.
+Unlike Sigma3 this does not follow from encryption alone: an insider who knows the IPK can run its
+own ECDH, so the argument goes through the TBS signature.  Kept as a definition, not proved. -/
+def C01_full : Prop :=
+  ∀ (t : Time) (fabrics : List Fabric) (f : Fabric) (peer ephI ephR : Nat)
+    (rI sI ipk rR idR sR : Nat) (ctx : RespCtx) (c3 : InitCtx3) (C : Cert → Prop) (m : Msg),
+    f.ipk = .atom ipk →
+    respSigma1 fabrics (initSigma1 f [] peer ephI (.atom rI) (.atom sI)).s1 ephR (.atom rR)
+      (.atom idR) (.atom sR) = .sent ctx →
+    ctx.fabric.opKey = ctx.fabric.noc.pubKey →
+    (∀ c, C c → nodeIdOf c.subject = some peer → c.pubKey = ctx.fabric.opKey) →
+    Derivable [ephI, ephR] (· ≠ ctx.fabric.opKey) C
+      [(initSigma1 f [] peer ephI (.atom rI) (.atom sI)).s1.toTerm, ctx.s2.toTerm, f.ipk] m.toTerm →
+    initSigma2 t (initSigma1 f [] peer ephI (.atom rI) (.atom sI)) m = some c3 →
+    ∃ sid', m = .sigma2 (.atom rR) sid' (.epk ephR)
+      (.enc (s2k ctx.secret ctx.fabric.ipk (.atom rR) (.epk ephR) ctx.s1) nonceS2
+        (tbe2 ctx.fabric.noc ctx.fabric.icac
+          (Term.sign ctx.fabric.opKey (tbs ctx.fabric.noc ctx.fabric.icac (.epk ephR) (.epk ephI)))
+          (.atom idR)))
+
+/-! ## Non-vacuity: a concrete honest handshake (full and resumed) -/
+
+def devNoc : Cert :=
+  { C19.exNocDirect with subject := [.nodeId 200, .fabricId 7], skid := some 8, pubKey := 8 }
+
+def ctlFabric : Fabric :=
+  { idx := 1, fabricId := 7, root := C19.exRoot, ipk := .atom 77, nodeId := 5, noc := C19.exNoc,
+    icac := some C19.exIcac, opKey := 9 }
+
+def devFabric : Fabric :=
+  { idx := 2, fabricId := 7, root := C19.exRoot, ipk := .atom 77, nodeId := 200, noc := devNoc,
+    icac := .none, opKey := 8 }
+
+def exInit : InitCtx := initSigma1 ctlFabric [] 200 11 (.atom 501) (.atom 601)
+
+def exResp : RespCtx :=
+  match respSigma1 [devFabric] exInit.s1 12 (.atom 502) (.atom 702) (.atom 602) with
+  | .sent ctx => ctx
+  | .refused => default
+
+def exInit3 : InitCtx3 := (initSigma2 C19.exT exInit exResp.s2).getD default
+
+/-- the honest run completes on both sides … -/
+example : (respSigma3 C19.exT exResp exInit3.s3).isSome = true := by decide
+example : (initFinish exInit3 (.status true)).isSome = true := by decide
+/-- … with the responder's session bound to the controller's NOC (node 5, CAT 65537, fabric
+index 2 = the fabric the destination id selected) and both sides holding the same keys -/
+example : ((respSigma3 C19.exT exResp exInit3.s3).map fun p => (p.1.fabIdx, p.1.peerNode, p.1.cats)) =
+    some (2, 5, [65537]) := by decide
+example : ((respSigma3 C19.exT exResp exInit3.s3).map fun p => (p.1.i2r, p.1.r2i)) =
+    ((initFinish exInit3 (.status true)).map fun p => (p.1.i2r, p.1.r2i)) := by decide
+/-- a Sigma1 with one field changed in flight: the initiator refuses the resulting Sigma2 -/
+example :
+    (match respSigma1 [devFabric] (.sigma1 (.atom 501) (.atom 999) (destId (.atom 77) (.atom 501) 0 7 200) (.epk 11) .none)
+        12 (.atom 502) (.atom 702) (.atom 602) with
+      | .sent ctx => (initSigma2 C19.exT exInit ctx.s2).isSome
+      | .refused => true) = false := by decide
+/-- a destination id for a fabric the responder does not have is refused -/
+example : (match respSigma1 [devFabric] (.sigma1 (.atom 501) (.atom 601) (destId (.atom 78) (.atom 501) 0 7 200) (.epk 11) .none)
+    12 (.atom 502) (.atom 702) (.atom 602) with | .refused => true | _ => false) = true := by decide
+/-- a controller whose NOC chains to another root gets no session -/
+example : (respSigma3 C19.exT { exResp with fabric := { devFabric with root := { C19.exRoot with pubKey := 4, sigBy := some 4 } } }
+    exInit3.s3).isSome = false := by decide
+
+end C01
